@@ -170,6 +170,12 @@ class SpecGen:
                     break
             if r.random() < 0.3:
                 steps.append(self.next_probe())
+            if r.random() < 0.12:
+                # a chain nested directly in a chain, ended early by STOP (or with a SKIP step), followed by outer steps:
+                # the inner STOP ends the inner chain only
+                inner_kind = r.choice(['Tuple', 'Pipe'])
+                inner = [inner_kind, steps + [['Val', {'sent': r.choice(['STOP', 'STOP', 'SKIP'])}], self.next_probe()]]
+                return ['Tuple' if f == 'tuple' else 'Pipe', [inner, self.next_probe(), ['Fn', ['id']]]]
             return ['Tuple' if f == 'tuple' else 'Pipe', steps]
         if f == 'list':
             if k in ('list', 'tuple') and t['items']:
